@@ -38,6 +38,11 @@ pub fn random_par(rng: &mut Rng) -> String {
         if !alts.iter().any(|a| a == t) { alts.push(t.to_string()); }
     }
     if states {
+        if rng.chance(1, 2) {
+            // the same terminal under different state annotations at different places, the inner state's occurrence first
+            alts.insert(0, "<Str> /[a-z]+/".to_string());
+            if !alts.iter().any(|a| a == "/[a-z]+/") { alts.push("/[a-z]+/".to_string()); }
+        }
         alts.push("Q".to_string());
         alts.push("<Str> /[^\"(]+/".to_string());
         if how == 2 { alts.push("P".to_string()); }
@@ -101,6 +106,21 @@ pub fn run(a: &Args) {
             modes_sx.push(format!("(({}) ({}))", entries.join(" "), tr.join(" ")));
         }
         if !ok { println!("(scan {} (build-info-failed))", sx::s(&par)); continue; }
+        // which user terminals the GRAMMAR puts into which scanner state: the union of the state lists written at
+        // the occurrences of the terminal (computed here from the productions, not from the generator's merged lists)
+        let ordered = gc.cfg.get_ordered_terminals();
+        let mut decl: Vec<std::collections::BTreeSet<usize>> = vec![Default::default(); ordered.len()];
+        for p in &gc.cfg.pr {
+            for s in p.get_r() {
+                if let parol::Symbol::T(parol::Terminal::Trm(t, k, states, _, _, _, l)) = s {
+                    if let Some(i) = ordered.iter().position(|(t2, k2, l2, _)| t2 == t && k2.behaves_like(*k) && l2 == l) {
+                        decl[i].extend(states.iter().cloned());
+                    }
+                }
+            }
+        }
+        let members_sx = (0..gc.scanner_configurations.len()).map(|m| format!("({})", decl.iter().enumerate().filter(|(_, d)| d.contains(&m)).map(|(i, _)| (i + 5).to_string()).collect::<Vec<_>>().join(" "))).collect::<Vec<_>>().join(" ");
+        modes_sx.push(format!("(members {})", members_sx));
         for _ in 0..6 {
             let text = random_text(&mut rng);
             let k = [1usize, 2, 5][rng.below(3)];
